@@ -47,3 +47,9 @@ def results_items(u, props='C02', with_new=True):
     for it in (impl_cf, impl_ec, impl_er, from_u8, to_u8, to_u8r, from_ec):
         u.add(it)
     return [impl_cf, impl_ec, impl_er, from_u8, to_u8, to_u8r, from_ec]
+
+
+def runtime_options_item(u):
+    """The real RuntimeOptions struct (brush-core/src/options.rs), so that contracts can mention any option."""
+    op = u.source('brush-core/src/options.rs')
+    u.add(op.item(r'^pub struct RuntimeOptions ', 'RuntimeOptions').r1(keep_derive=()))
